@@ -123,6 +123,31 @@ CLAIMED = {
         "note": "Not decided: exceptions inside pydantic/ruamel/jinja2, RecursionError, encoding errors, 'nothing "
                 "written on rejection' (effect contract, see C19). Bounded stand-ins are not counted as proved.",
     },
+    "C05": {
+        "engines": ["A", "C", "B"], "level": "proof",
+        "technique": "contract-based deductive verification: regular-language contracts on remove_string_escapes and on "
+                     "the safe_docstring macro (jinja AST executed over languages), language inclusion per (document "
+                     "slot, lexical context), forwarding contract of property_from_data (ast->z3)",
+        "text": "Proved for all strings: what remove_string_escapes guarantees; that the safe_docstring macro of the "
+                "real templates emits exactly one well-formed docstring token for ANY content; for every (slot, "
+                "context) pair the rendering reaches, that the slot's language is included in what may stand in that "
+                "context (three known findings are excluded classes); that every builder receives the escaped name on "
+                "every dispatch path (361 schema shapes). One defect (code execution through docstrings) repaired.",
+        "note": "The set of contexts each slot reaches is measured on the rendering of a slot document (4 config "
+                "variants) with CPython's tokenizer as judge; the slot->language table is part of the contract (names "
+                "discharged by the forwarding contract). repr() assumed to produce valid literals. README excluded.",
+    },
+    "C18": {
+        "engines": ["F", "B"], "level": "proof",
+        "technique": "contract-based deductive verification of generated code: the C02/C03 contracts re-proved on "
+                     "fragments rendered for a property / parameter spelled like each identifier of the generated code",
+        "text": "The set T of identifiers the real templates emit is computed on each run (about 230 names incl. "
+                "keywords); for each name a schematic model (required and optional) and operations (query, header, "
+                "path, cookie) are generated and the round-trip resp. documented-request contracts are proved "
+                "symbolically. Eleven names capture on the pinned tree (one known finding listing them); any other "
+                "failing name is a violation.",
+        "note": "Trusted as for C02/C03. One neutral shape per name; other shapes by the frame argument (paper).",
+    },
 }
 
 _NOT_BUILT = "not built yet in this round (planned per DESIGN.md section 7); no claim is made"
